@@ -92,4 +92,3 @@ func cmdFn(args []string) {
 	}
 }
 
-func cmdCheck(args []string) {}
